@@ -251,7 +251,7 @@ def ob_native():
         if case["geo"] and sch in ("SVDMimo", "GMDMimo", "Blast") and Nt >= 2:
             sv = 2.0 ** np.arange(Nt, 0, -1)
             H = np.linalg.qr(cm(rr, Nr, Nr))[0][:, :Nt] @ np.diag(sv) @ np.linalg.qr(cm(rr, Nt, Nt))[0]
-        if np.linalg.cond(H) > 1e4:
+        if (not (np.linalg.cond(H) <= 1e4)):
             return None
         o = getattr(mimo, sch)(H)
         layers = o.getNumberOfLayers() if sch != "MRT" else 1
@@ -261,7 +261,7 @@ def ob_native():
         x = rr.randn(n) + 1j * rr.randn(n)
         enc = o.encode(x)
         dec = o.decode(H @ enc)
-        if dec.shape != x.shape or np.abs(dec - x).max() > 1e-8 * max(1, np.abs(x).max()):
+        if dec.shape != x.shape or (not (np.abs(dec - x).max() <= 1e-8 * max(1, np.abs(x).max()))):
             return {"scheme": sch, "Nr": Nr, "Nt": Nt, "max error": float(np.abs(dec - x).max()) if dec.shape == x.shape else "shape"}
         uses = enc.shape[1] if enc.ndim == 2 else 1
         per_use = np.sum(np.abs(enc) ** 2) / uses
@@ -270,31 +270,31 @@ def ob_native():
             want = np.mean(np.abs(x) ** 2)              # Nt streams, each 1/Nt of the power
         if sch == "Alamouti":
             want = np.mean(np.abs(x) ** 2)
-        if abs(per_use - want) > 1e-9 * max(1, want):
+        if (not (abs(per_use - want) <= 1e-9 * max(1, want))):
             return {"scheme": sch, "energy per channel use": float(per_use), "mean symbol energy": float(want)}
         if sch in ("Blast", "MRC", "GMDMimo"):
             W = mimo.MimoBase._calcZeroForceFilter(H)
-            if np.abs(W @ H - np.eye(Nt)).max() > 1e-8:
+            if (not (np.abs(W @ H - np.eye(Nt)).max() <= 1e-8)):
                 return {"ZF equation": True}
             s2 = float(rr.rand() + 0.01)
             Wm = mimo.MimoBase._calcMMSEFilter(H, s2)
-            if np.abs((H.conj().T @ H + s2 * np.eye(Nt)) @ Wm - H.conj().T).max() > 1e-8 * max(1, np.abs(H).max() ** 2):
+            if (not (np.abs((H.conj().T @ H + s2 * np.eye(Nt)) @ Wm - H.conj().T).max() <= 1e-8 * max(1, np.abs(H).max() ** 2))):
                 return {"MMSE equation": True}
             Wt = mimo.MimoBase._calcMMSEFilter(H, 1e-12)
-            if np.abs(Wt - W).max() > 1e-4 * max(1, np.abs(W).max()):
+            if (not (np.abs(Wt - W).max() <= 1e-4 * max(1, np.abs(W).max()))):
                 return {"MMSE does not tend to ZF": float(np.abs(Wt - W).max())}
             # histories on one object
             o.set_noise_var(0.5)
             o.decode(H @ enc)
             o.set_noise_var(None)
             d2 = o.decode(H @ enc)
-            if np.abs(d2 - x).max() > 1e-8 * max(1, np.abs(x).max()):
+            if (not (np.abs(d2 - x).max() <= 1e-8 * max(1, np.abs(x).max()))):
                 return {"scheme": sch, "after set_noise_var(0.5), decode, set_noise_var(None)": float(np.abs(d2 - x).max())}
             o.set_noise_var(0.3)
             o.decode(H @ enc)
             o.set_noise_var(0.0)
             d3 = o.decode(H @ enc)
-            if np.abs(d3 - x).max() > 1e-8 * max(1, np.abs(x).max()):
+            if (not (np.abs(d3 - x).max() <= 1e-8 * max(1, np.abs(x).max()))):
                 return {"scheme": sch, "after set_noise_var(0.0)": float(np.abs(d3 - x).max())}
         return None
     return bounded(gen(), check)
